@@ -412,6 +412,12 @@ def r14_4(prog, rep):
                 if ini.get("k") == "mem":
                     fld = ini["f"]
     if fld is None:
+        # read in place (`t->dur.d / 1000U`) instead of through a copy
+        for b, i, x, line in vt.cfg.all_elems():
+            for q in walk(vt.cfg.resolve(x)) if isinstance(x, dict) else ():
+                if q.get("k") == "mem" and "idiff" in (q.get("t") or "") and "_task_s" in (q.get("rec") or ""):
+                    fld = q["f"]
+    if fld is None:
         raise AnalysisBroken("R14.4: vtodoify no longer reads the limit from a task field")
     n = 0
     for f in prog.fns_in("echsd.c"):
